@@ -20,8 +20,10 @@ def insertPair (x : Nat × Nat) : List (Nat × Nat) → List (Nat × Nat)
   | [] => [x]
   | y :: ys => if x.1 < y.1 ∨ (x.1 = y.1 ∧ x.2 ≤ y.2) then x :: y :: ys else y :: insertPair x ys
 
-def canonPairs (l : List (Nat × Nat)) : String :=
-  joinSp ((l.foldr insertPair []).map fun (k, v) => s!"{k}:{v}")
+def canonList (l : List (Nat × Nat)) : List String :=
+  (l.foldr insertPair []).map fun (k, v) => s!"{k}:{v}"
+
+def canonPairs (l : List (Nat × Nat)) : String := joinSp (canonList l)
 
 /-- compare one observation with model and spec -/
 def judge (r : Report) (s : Section) (l : Line) (model spec : String) : Report :=
@@ -70,10 +72,18 @@ def runQueue (r : Report) (s : Section) : Report := Id.run do
 /-! ### ring -/
 
 def runRing (r : Report) (s : Section) : Report := Id.run do
-  let n := kvNat s.cfg "n" 1
+  let nI := kvInt s.cfg "n" 1
+  let n := nI.toNat
   let mut rg := Ring.new n
   let mut hist : Array Nat := #[]
   let mut r := r
+  if nI < 1 then
+    -- `NewRing(n)` with n < 1 panics (`tie_newRingGuard`): no ring exists, outside the property (n ≥ 1)
+    r := r.addCover "ring-new-panics"
+    for l in s.lines do
+      r := { r with ops := r.ops + 1 }
+      if joinSp l.obs ≠ "PANIC-new" then r := r.mismatch s.idx l.idx "PANIC-new" (joinSp l.obs)
+    return r
   for l in s.lines do
     r := { r with ops := r.ops + 1 }
     match l.op with
@@ -97,6 +107,17 @@ def runRing (r : Report) (s : Section) : Report := Id.run do
 
 def parsePair (t v : String) : Option (Nat × Nat) := do pure ((← t.toNat?), (← v.toNat?))
 
+/-- `t v1 v2 …` → elements of one type -/
+def parseSame (t : String) (vs : List String) : Option (List (Nat × Nat)) := do
+  let t ← t.toNat?
+  vs.mapM fun v => do pure (t, (← v.toNat?))
+
+/-- `t1 v1 t2 v2 …` -/
+def parseMixed : List String → Option (List (Nat × Nat))
+  | [] => some []
+  | t :: v :: rest => do pure ((← parsePair t v) :: (← parseMixed rest))
+  | _ => none
+
 def runSet (r : Report) (s : Section) : Report := Id.run do
   let managed := kvNat s.cfg "managed" 1 = 1
   let mut st := GSet.new managed
@@ -117,6 +138,21 @@ def runSet (r : Report) (s : Section) : Report := Id.run do
         hist := .add x :: hist
         sp := if sp.contains x then sp else x :: sp
         r := judge r s l s!"tp={st.tp}" (joinSp l.obs)
+    | "addn" :: t :: vs | "addmix" :: t :: vs =>
+      -- variadic Add / AddInt / … : the elements are added one by one, in order
+      match (if l.op.head? = some "addn" then parseSame t vs else parseMixed (t :: vs)) with
+      | none => r := r.mismatch s.idx l.idx "bad-op" (joinSp l.op)
+      | some xs =>
+        r := r.addCover (if xs.length ≥ 2 then "set-add-variadic-many" else if xs.length = 1 then "set-add-variadic-1" else "set-add-variadic-0")
+        if xs.length ≥ 2 ∧ ¬ xs.Nodup then r := r.addCover "set-add-variadic-duplicates"
+        if st.tp = tpUntyped ∧ (xs.any fun x => knownType x.1) then r := r.addCover "set-add-variadic-settype"
+        st := st.addMany xs
+        hist := (xs.map SetOp.add).reverse ++ hist
+        sp := xs.foldl (fun sp x => if sp.contains x then sp else x :: sp) sp
+        r := judge r s l s!"tp={st.tp}" (joinSp l.obs)
+    | ["addmix"] =>
+      r := r.addCover "set-add-variadic-0"
+      r := judge r s l s!"tp={st.tp}" (joinSp l.obs)
     | ["remove", t, v] =>
       match parsePair t v with
       | none => r := r.mismatch s.idx l.idx "bad-op" (joinSp l.op)
@@ -136,8 +172,10 @@ def runSet (r : Report) (s : Section) : Report := Id.run do
       r := r.addCover "set-count"
       r := judge r s l (toString st.count) (toString sp.length)
     | ["keys"] =>
+      -- Keys(), then the union of the typed views KeysInt … KeysStr (+ the keys of other types): both are the set
       r := r.addCover "set-keys"
-      r := judge r s l (canonPairs st.data) (canonPairs sp)
+      if (sp.map (·.1)).eraseDups.length ≥ 2 then r := r.addCover "set-keys-several-types"
+      r := judge r s l (joinSp (canonList st.data ++ ["|"] ++ canonList st.data)) (joinSp (canonList sp ++ ["|"] ++ canonList sp))
     | _ => r := r.mismatch s.idx l.idx "bad-op" (joinSp l.op)
   return r
 
@@ -192,7 +230,7 @@ def runSafeMap (r : Report) (s : Section) : Report := Id.run do
     | _ => r := r.mismatch s.idx l.idx "bad-op" (joinSp l.op)
   return r
 
-def runSection (r : Report) (s : Section) : Report :=
+def runSingle (r : Report) (s : Section) : Report :=
   match kvStr s.cfg "s" with
   | "queue" => (runQueue r s).addCover "sections-queue"
   | "ring" => (runRing r s).addCover "sections-ring"
@@ -201,6 +239,44 @@ def runSection (r : Report) (s : Section) : Report :=
   | "rw" => (runRW r s).addCover "sections-rw"
   | "cache" => (runCache r s).addCover "sections-cache"
   | other => r.mismatch s.idx 0 "known structure" other
+
+/-- the instance tags `@i` of a multi-instance section, in order of first appearance -/
+def instTags (s : Section) : List String := (s.lines.filterMap fun (l : Line) => l.op.head?).eraseDups
+
+/-- Multi-instance section: the operations of several instances of one structure are interleaved in the trace.  The
+instances are independent objects, so every instance is replayed on its own, through the same model / spec / monitor
+as a single-instance section (any influence of one instance on another shows as a mismatch and a violation there).
+`@i new <cfg>` creates instance i. -/
+def runMulti (r : Report) (s : Section) : Report := Id.run do
+  let mut r := r.addCover "sections-multi"
+  let tags := instTags s
+  r := r.addCover s!"multi-instances-{tags.length}"
+  let mut cfgs : List (List String) := []
+  for tag in tags do
+    let mine : List Line := s.lines.filter fun (l : Line) => l.op.head? = some tag
+    let pre : List Line := mine.takeWhile fun (l : Line) => (l.op.drop 1).head? ≠ some "new"
+    for l in pre do
+      r := { r with ops := r.ops + 1 }
+      if ¬ tag.startsWith "@" then r := r.mismatch s.idx l.idx "bad-op" (joinSp l.op)
+      else if joinSp l.obs ≠ "no-instance" then r := r.mismatch s.idx l.idx "no-instance" (joinSp l.obs)
+    match mine.drop pre.length with
+    | [] => pure ()
+    | nl :: rest =>
+      r := { r with ops := r.ops + 1 }
+      let cfg := nl.op.drop 2
+      if kvStr cfg "s" = "multi" ∨ kvStr cfg "s" = "" then
+        r := r.mismatch s.idx nl.idx "structure" (joinSp nl.op)
+      else
+        if joinSp nl.obs ≠ "ok" then r := r.mismatch s.idx nl.idx "ok" (joinSp nl.obs)
+        if cfgs.contains cfg then
+          r := r.addCover "multi-same-parameters"
+          if kvStr cfg "s" = "cache" ∧ kvInt cfg "limit" 0 > 0 then r := r.addCover "multi-cache-shared-option-lru"
+        cfgs := cfg :: cfgs
+        r := runSingle r { idx := s.idx, cfg := cfg, lines := rest.map fun (l : Line) => { l with op := l.op.drop 1 } }
+  return r
+
+def runSection (r : Report) (s : Section) : Report :=
+  if kvStr s.cfg "s" = "multi" then runMulti r s else runSingle r s
 
 def driver (secs : List Section) : Report := secs.foldl runSection {}
 
